@@ -14,6 +14,8 @@ import (
 	"math/bits"
 	"os"
 	"strings"
+	"sync"
+	"time"
 	"unicode/utf8"
 
 	"go.starlark.net/starlark"
@@ -348,6 +350,7 @@ type ProgCase struct {
 	I        int      `json:"i"`
 	Links    []string `json:"links"`  // kinds of the links of the call chain
 	Fail     string   `json:"fail"`   // kind of the failing operation
+	Ctx      string   `json:"ctx"`    // syntactic context of the failing expression
 	Layout   string   `json:"layout"` // summary of the layout choices
 	Depth    int      `json:"depth"`
 	SrcLen   int      `json:"srclen"`
@@ -401,9 +404,11 @@ func (w *W) sp(n int) {
 func (w *W) mark() (int32, int32) { return int32(w.line), int32(w.col) }
 
 type gen struct {
-	r      *hx.Rand
-	w      *W
-	layout []string
+	r       *hx.Rand
+	w       *W
+	layout  []string
+	ctx     int  // syntactic context of the failing expression
+	oneLine bool // the context does not allow the expression to span lines outside brackets
 }
 
 // a gap in lines: mostly small, sometimes huge
@@ -491,10 +496,121 @@ func (g *gen) openParenAndMove() {
 	w.sp(g.colPad())
 }
 
+
+// The syntactic contexts a failing expression is placed in.  The compiler has
+// separate code paths for conditions (ifelse: not, and, or, "not in"), for
+// values, for arguments and defaults; every failing kind visits them all.
+const nCtx = 18
+
+var ctxNames = [nCtx]string{"return-paren", "assign-paren", "stmt-paren", "if", "if-not", "if-and", "if-or", "if-paren", "elif",
+	"condexpr-test", "comp-filter", "call-arg", "call-kwarg", "default-value", "while", "list-element", "condexpr-and-multiline", "comp-filter-not"}
+
+func (g *gen) move() {
+	g.w.nl(g.lineGap())
+	g.w.sp(g.colPad())
+}
+
+// openCtx writes what precedes the failing expression and returns what follows it.
+func (g *gen) openCtx(ind, tail string) string {
+	w, r := g.w, g.r
+	g.oneLine = false
+	pass := ":\n" + ind + "    pass\n"
+	switch g.ctx {
+	case 1:
+		w.s(ind + "_v = (")
+		g.move()
+		return ")" + tail
+	case 2:
+		w.s(ind + "(")
+		g.move()
+		return ")" + tail
+	case 3:
+		g.oneLine = true
+		w.s(ind + "if")
+		w.sp(1 + g.colPad())
+		return pass
+	case 4:
+		g.oneLine = true
+		w.s(ind + "if not")
+		w.sp(1 + g.colPad())
+		return pass
+	case 5:
+		g.oneLine = true
+		w.s(ind + "if x == 1 and")
+		w.sp(1 + g.colPad())
+		return hx.Pick(r, []string{"", " and x == 1", " or x == 7"}) + pass
+	case 6:
+		g.oneLine = true
+		w.s(ind + "if x == 2 or")
+		w.sp(1 + g.colPad())
+		return pass
+	case 7:
+		w.s(ind + "if (")
+		g.move()
+		return ")" + pass
+	case 8:
+		g.oneLine = true
+		w.s(ind + "if x == 2:\n" + ind + "    pass\n" + ind + "elif")
+		w.sp(1 + g.colPad())
+		return pass
+	case 9:
+		w.s(ind + "return (")
+		g.move()
+		w.s("1 if")
+		w.sp(1 + r.Intn(4))
+		return " else 2)\n"
+	case 10:
+		w.s(ind + "return [q for q in t if")
+		g.move()
+		w.s(" ")
+		return "]\n"
+	case 11:
+		w.s(ind + "return str(")
+		g.move()
+		return ")\n"
+	case 12:
+		w.s(ind + "return dict(k =")
+		g.move()
+		w.s(" ")
+		return ")\n"
+	case 13:
+		w.s(ind + "def inner_d(a =")
+		g.move()
+		w.s(" ")
+		return "):\n" + ind + "    return a\n" + ind + "return inner_d()\n"
+	case 14:
+		g.oneLine = true
+		w.s(ind + "while")
+		w.sp(1 + g.colPad())
+		return ":\n" + ind + "    break\n"
+	case 15:
+		w.s(ind + "_v = [x,")
+		g.move()
+		w.s(" ")
+		return ", y]\n"
+	case 16:
+		w.s(ind + "return (")
+		g.move()
+		w.s("1 if x == 1 " + hx.Pick(r, []string{"and", "and x != 5 and"}))
+		w.nl(1 + r.Intn(3))
+		w.sp(r.Intn(50))
+		return " else 2)\n"
+	case 17:
+		w.s(ind + "return {q: 1 for q in t if not")
+		g.move()
+		w.s(" ")
+		return "}\n"
+	}
+	w.s(ind + "return (")
+	g.move()
+	return ")" + tail
+}
+
 var linkKinds = []string{"def", "def", "lambda", "comp", "dictcomp", "sorted", "min", "max", "closure", "callkw", "callvar", "ifblock", "forblock"}
 var failKinds = []string{"call", "binop", "unop", "index", "attr", "unpack", "local", "global", "fail",
 	"setindex", "divzero", "iterate", "slice", "cmp", "in", "callkw", "setfield", "augassign", "argbind",
-	"dictkey", "compiterate", "percent", "notin", "default", "methodcall", "pluschain", "recursive", "pluschain", "argbind"}
+	"dictkey", "compiterate", "percent", "notin", "default", "methodcall", "pluschain", "recursive", "pluschain", "argbind",
+	"augindex", "augfield", "plainstore", "seqstore", "notin", "augindex"}
 
 func fname(i int) string { return fmt.Sprintf("f%d", i) }
 
@@ -649,80 +765,73 @@ func (g *gen) genFailing(name, kind string) []Frame {
 	tail := hx.Pick(r, []string{"\n", "\n", " + x\n", " == [x, y]\n"})
 	fr := func(l, c int32) []Frame { return []Frame{{Name: name, Line: l, Col: c}} }
 	var out []Frame
+	seqClose := false
 	switch kind {
 	case "call":
-		w.s(ind + "return ")
-		g.openParenAndMove()
+		closer := g.openCtx(ind, tail)
 		w.s("x")
 		w.sp(r.Intn(3))
 		l, c := w.mark()
-		w.s("(1))" + tail)
+		w.s("(1)" + closer)
 		out = fr(l, c)
 	case "binop":
 		op := hx.Pick(r, []string{"+", "-", "//", "%", "&", "|", "^", "<<", ">>", "/"})
-		w.s(ind + "return ")
-		g.openParenAndMove()
+		closer := g.openCtx(ind, tail)
 		w.s("x ")
 		w.sp(r.Intn(3))
 		l, c := w.mark()
-		w.s(op + " y)" + tail)
+		w.s(op + " y" + closer)
 		out = fr(l, c)
 	case "cmp":
 		op := hx.Pick(r, []string{"<", "<=", ">", ">="})
-		w.s(ind + "return ")
-		g.openParenAndMove()
+		closer := g.openCtx(ind, tail)
 		w.s("x ")
 		l, c := w.mark()
-		w.s(op + " y)" + tail)
+		w.s(op + " y" + closer)
 		out = fr(l, c)
 	case "in":
-		w.s(ind + "return ")
-		g.openParenAndMove()
+		closer := g.openCtx(ind, tail)
 		w.s("y ")
 		l, c := w.mark()
-		w.s("in x)" + tail)
+		w.s("in x" + closer)
 		out = fr(l, c)
 	case "unop":
 		op := hx.Pick(r, []string{"-", "~", "+"})
-		w.s(ind + "return ")
-		g.openParenAndMove()
+		closer := g.openCtx(ind, tail)
 		l, c := w.mark()
-		w.s(op + " y)" + tail)
+		w.s(op + " y" + closer)
 		out = fr(l, c)
 	case "index":
-		w.s(ind + "return ")
-		g.openParenAndMove()
+		closer := g.openCtx(ind, tail)
 		w.s(hx.Pick(r, []string{"x", "t", "y"}))
 		w.sp(r.Intn(3))
 		l, c := w.mark()
-		w.s("[7])" + tail)
+		w.s("[7]" + closer)
 		out = fr(l, c)
 	case "slice":
-		w.s(ind + "return ")
-		g.openParenAndMove()
+		closer := g.openCtx(ind, tail)
 		w.s("x")
 		l, c := w.mark()
 		switch r.Intn(3) {
 		case 0:
-			w.s("[1:2])" + tail)
+			w.s("[1:2]" + closer)
 		case 1: // operands with their own positions, on other lines
 			w.s("[")
 			w.nl(1 + r.Intn(3))
 			w.sp(r.Intn(40))
 			w.s("len(y):")
 			w.nl(r.Intn(2))
-			w.s("x + 1])" + tail)
+			w.s("x + 1]" + closer)
 		default:
-			w.s("[::x])" + tail)
+			w.s("[::x]" + closer)
 		}
 		out = fr(l, c)
 	case "attr":
-		w.s(ind + "return ")
-		g.openParenAndMove()
+		closer := g.openCtx(ind, tail)
 		w.s("x")
 		w.sp(r.Intn(3))
 		l, c := w.mark()
-		w.s(".nosuch)" + tail)
+		w.s(".nosuch" + closer)
 		out = fr(l, c)
 	case "unpack":
 		w.s(ind + "a, b")
@@ -732,25 +841,22 @@ func (g *gen) genFailing(name, kind string) []Frame {
 		w.s(ind + "return a\n")
 		out = fr(l, c)
 	case "local":
-		w.s(ind + "return ")
-		g.openParenAndMove()
+		closer := g.openCtx(ind, tail)
 		l, c := w.mark()
-		w.s("z)" + tail)
+		w.s("z" + closer)
 		w.s("    z = 1\n")
 		out = fr(l, c)
 	case "global":
-		w.s(ind + "return ")
-		g.openParenAndMove()
+		closer := g.openCtx(ind, tail)
 		l, c := w.mark()
-		w.s("later_g)" + tail)
+		w.s("later_g" + closer)
 		out = fr(l, c)
 	case "fail":
-		w.s(ind + "return ")
-		g.openParenAndMove()
+		closer := g.openCtx(ind, tail)
 		w.s("fail")
 		w.sp(r.Intn(3))
 		l, c := w.mark()
-		w.s("(\"boom\"))" + tail)
+		w.s("(\"boom\")" + closer)
 		out = append(fr(l, c), Frame{Name: "fail", File: "<builtin>"})
 	case "setindex":
 		w.s(ind + "t")
@@ -775,11 +881,10 @@ func (g *gen) genFailing(name, kind string) []Frame {
 		w.s(ind + "return q\n")
 		out = fr(l, c)
 	case "divzero":
-		w.s(ind + "return ")
-		g.openParenAndMove()
+		closer := g.openCtx(ind, tail)
 		w.s("x ")
 		l, c := w.mark()
-		w.s(hx.Pick(r, []string{"//", "%", "/"}) + " (x - x))" + tail)
+		w.s(hx.Pick(r, []string{"//", "%", "/"}) + " (x - x)" + closer)
 		out = fr(l, c)
 	case "iterate":
 		w.s(ind)
@@ -789,41 +894,36 @@ func (g *gen) genFailing(name, kind string) []Frame {
 		w.s(ind + "return x\n")
 		out = fr(l, c)
 	case "callkw":
-		w.s(ind + "return ")
-		g.openParenAndMove()
+		closer := g.openCtx(ind, tail)
 		w.s("y")
 		l, c := w.mark()
-		w.s("(a = 1, *[2]))" + tail)
+		w.s("(a = 1, *[2])" + closer)
 		out = fr(l, c)
 	case "dictkey": // unhashable key in a dict literal: reported at the ':' of that entry
-		w.s(ind + "return ")
-		g.openParenAndMove()
+		closer := g.openCtx(ind, tail)
 		w.s("{x: 1, [x]")
 		w.sp(r.Intn(3))
 		l, c := w.mark()
-		w.s(": 2})" + tail)
+		w.s(": 2}" + closer)
 		out = fr(l, c)
 	case "compiterate": // iterating a non-iterable in a comprehension: reported at its 'for'
-		w.s(ind + "return ")
-		g.openParenAndMove()
+		closer := g.openCtx(ind, tail)
 		w.s("[q ")
 		w.sp(r.Intn(3))
 		l, c := w.mark()
-		w.s("for q in x])" + tail)
+		w.s("for q in x]" + closer)
 		out = fr(l, c)
 	case "percent":
-		w.s(ind + "return ")
-		g.openParenAndMove()
+		closer := g.openCtx(ind, tail)
 		w.s("y ")
 		l, c := w.mark()
-		w.s("% t)" + tail)
+		w.s("% t" + closer)
 		out = fr(l, c)
 	case "notin":
-		w.s(ind + "return ")
-		g.openParenAndMove()
+		closer := g.openCtx(ind, tail)
 		w.s("y ")
 		l, c := w.mark()
-		w.s("not in x)" + tail)
+		w.s("not in x" + closer)
 		out = fr(l, c)
 		out[0].ColMax = c + 4 // the column of "in"
 	case "default": // a failing default-value expression is evaluated in the enclosing function
@@ -836,22 +936,103 @@ func (g *gen) genFailing(name, kind string) []Frame {
 		w.s(ind + "return inner()\n")
 		out = fr(l, c)
 	case "methodcall": // a built-in method rejects its argument: the call's '(' plus the built-in's frame
-		w.s(ind + "return ")
-		g.openParenAndMove()
+		closer := g.openCtx(ind, tail)
 		w.s("y.join")
 		w.sp(r.Intn(3))
 		l, c := w.mark()
-		w.s("([x]))" + tail)
+		w.s("([x])" + closer)
 		out = append(fr(l, c), Frame{Name: "join", File: "<builtin>"})
+	case "augindex":
+		// x[i] op= v where the load and the operator succeed and the STORE fails:
+		// reported at the '[' of the target (index expression possibly on other lines)
+		recv := hx.Pick(r, []string{"t", "y", "flist", "fdict", "iterated"})
+		idx, rhs, op := "0", "x", hx.Pick(r, []string{"+=", "-=", "*=", "|="})
+		switch recv {
+		case "y":
+			rhs, op = "\"a\"", "+="
+		case "fdict":
+			idx = "\"k\""
+		case "iterated":
+			w.s(ind + "lst = [1, 2, 3]\n" + ind + "for _q in lst:\n")
+			ind += "    "
+			recv = "lst"
+		}
+		w.s(ind + recv)
+		w.sp(g.colPad())
+		l, c := w.mark()
+		w.s("[")
+		if r.Bool() {
+			w.nl(1 + r.Intn(3))
+			w.sp(r.Intn(40))
+		}
+		w.s(idx)
+		if r.Bool() {
+			w.nl(1 + r.Intn(2))
+		}
+		w.s("]")
+		w.sp(1 + r.Intn(20))
+		w.s(op + " " + rhs + "\n")
+		out = fr(l, c)
+	case "augfield":
+		// x.f op= v: load and operator succeed, SetField fails: reported at the '.'
+		w.s(ind + hx.Pick(r, []string{"rec", "frec"}))
+		w.sp(g.colPad())
+		l, c := w.mark()
+		w.s(".f")
+		w.sp(1 + r.Intn(20))
+		w.s(hx.Pick(r, []string{"+=", "-=", "*="}) + " x\n")
+		out = fr(l, c)
+	case "plainstore":
+		// x[i] = v and x.f = v on immutable / frozen / being-iterated receivers
+		recv := hx.Pick(r, []string{"t", "y", "flist", "fdict", "iterated", "rec", "frec"})
+		if recv == "iterated" {
+			w.s(ind + "lst = [1, 2, 3]\n" + ind + "for _q in lst:\n")
+			ind += "    "
+			recv = "lst"
+		}
+		w.s(ind + recv)
+		w.sp(g.colPad())
+		l, c := w.mark()
+		if recv == "rec" || recv == "frec" {
+			w.s(".f = x\n")
+		} else {
+			w.s("[")
+			if r.Bool() {
+				w.nl(1 + r.Intn(3))
+				w.sp(r.Intn(40))
+			}
+			w.s("0")
+			if r.Bool() {
+				w.nl(1)
+			}
+			w.s("] = x\n")
+		}
+		out = fr(l, c)
+	case "seqstore":
+		// a sequence assignment whose targets include an index / field target that cannot be stored
+		opener := hx.Pick(r, []string{"", "[", "("})
+		w.s(ind + opener + "a, ")
+		recv := hx.Pick(r, []string{"t", "flist", "rec", "frec"})
+		w.sp(r.Intn(30))
+		w.s(recv)
+		w.sp(r.Intn(5))
+		l, c := w.mark()
+		if recv == "rec" || recv == "frec" {
+			w.s(".f")
+		} else {
+			w.s("[0]")
+		}
+		out = fr(l, c)
+		w.s(map[string]string{"": "", "[": "]", "(": ")"}[opener] + " = 5, 6\n")
+		seqClose = true
 	case "argbind":
 		// The callee rejects its arguments before its first instruction runs: the
 		// innermost frame is the callee with a fresh frame (pc 0), which reports the
 		// first position of the callee's code -- whatever ran before on the thread.
-		w.s(ind + "return ")
-		g.openParenAndMove()
+		closer := g.openCtx(ind, tail)
 		w.s("g_two")
 		l, c := w.mark()
-		w.s(hx.Pick(r, []string{"(x))", "(x, x, x))", "(x, zz = 1))", "(x, x, a = 2))", "())"}) + tail)
+		w.s(hx.Pick(r, []string{"(x)", "(x, x, x)", "(x, zz = 1)", "(x, x, a = 2)", "()"}) + closer)
 		w.s("def g_two(a, b):\n")
 		w.s("    q = ")
 		g.openParenAndMove()
@@ -867,19 +1048,17 @@ func (g *gen) genFailing(name, kind string) []Frame {
 	case "recursive":
 		// The recursion check fails in the callee before its first instruction: the
 		// second frame of the same function is fresh (pc 0 => first position).
-		w.s(ind + "return ")
-		g.openParenAndMove()
+		closer := g.openCtx(ind, tail)
 		w.s(name)
 		w.sp(r.Intn(3))
 		l, c := w.mark()
-		w.s("(x))" + tail)
+		w.s("(x)" + closer)
 		out = append(fr(l, c), Frame{Name: name, Line: firstL, Col: firstC})
 	case "pluschain":
 		// A chain a + b + c + ... with runs of adjacent literals (which the compiler
 		// folds into one constant), possibly spread over lines; the generator works
 		// out, left to right, which '+' is the first whose operand types differ.
-		w.s(ind + "return ")
-		g.openParenAndMove()
+		closer := g.openCtx(ind, tail)
 		type operand struct {
 			text string
 			ty   int // 0 int, 1 string, 2 list, 3 tuple
@@ -938,7 +1117,7 @@ func (g *gen) genFailing(name, kind string) []Frame {
 		failed := false
 		w.s(ops[0].text)
 		for _, o := range ops[1:] {
-			if r.Intn(3) == 0 {
+			if r.Intn(3) == 0 && !g.oneLine {
 				w.nl(1 + r.Intn(3))
 				w.sp(r.Intn(60))
 			} else {
@@ -947,7 +1126,7 @@ func (g *gen) genFailing(name, kind string) []Frame {
 			l, c := w.mark()
 			w.s("+")
 			w.sp(r.Intn(3))
-			if r.Intn(5) == 0 {
+			if r.Intn(5) == 0 && !g.oneLine {
 				w.nl(1)
 				w.sp(r.Intn(30))
 			}
@@ -957,11 +1136,46 @@ func (g *gen) genFailing(name, kind string) []Frame {
 				fl, fc = l, c
 			}
 		}
-		w.s(")" + tail)
+		w.s("" + closer)
 		out = fr(fl, fc)
 	}
+	_ = seqClose
 	return out
 }
+
+// Predeclared host values for the failing-store kinds.
+type recValue struct{ settable bool }
+
+func (r *recValue) String() string        { return "rec" }
+func (r *recValue) Type() string          { return "rec" }
+func (r *recValue) Freeze()               {}
+func (r *recValue) Truth() starlark.Bool  { return true }
+func (r *recValue) Hash() (uint32, error) { return 0, fmt.Errorf("unhashable") }
+func (r *recValue) Attr(name string) (starlark.Value, error) {
+	if name == "f" {
+		return starlark.MakeInt(3), nil
+	}
+	return nil, nil
+}
+func (r *recValue) AttrNames() []string { return []string{"f"} }
+
+// frecValue has a SetField that always fails (a frozen record).
+type frecValue struct{ recValue }
+
+func (r *frecValue) SetField(name string, v starlark.Value) error {
+	return fmt.Errorf("cannot set field of frozen rec")
+}
+
+func predeclared() starlark.StringDict {
+	fl := starlark.NewList([]starlark.Value{starlark.MakeInt(1), starlark.MakeInt(2), starlark.MakeInt(3)})
+	fl.Freeze()
+	fd := starlark.NewDict(1)
+	fd.SetKey(starlark.String("k"), starlark.MakeInt(1))
+	fd.Freeze()
+	return starlark.StringDict{"rec": &recValue{}, "frec": &frecValue{}, "flist": fl, "fdict": fd}
+}
+
+var progOpts = &syntax.FileOptions{While: true}
 
 const progFile = "c16.star"
 
@@ -1058,7 +1272,7 @@ func execProgOn(thread *starlark.Thread, prog *starlark.Program) (frames []Frame
 			problem = fmt.Sprint("panic: ", e)
 		}
 	}()
-	_, err := prog.Init(thread, nil)
+	_, err := prog.Init(thread, predeclared())
 	if err == nil {
 		return nil, "", "", "program did not fail"
 	}
@@ -1082,11 +1296,12 @@ func genCase(seed uint64, i int) (src string, pc ProgCase) {
 	}
 	// make every failing kind and link kind appear regularly
 	failKind := failKinds[i%len(failKinds)]
+	g.ctx = (i/len(failKinds)*7 + (i%len(failKinds))*5 + int(seed%nCtx)) % nCtx
 	if depth > 1 {
 		links[1+r.Intn(depth-1)] = linkKinds[(i/len(failKinds))%len(linkKinds)]
 	}
 	src, expected := g.genProgram(depth, links, failKind)
-	pc = ProgCase{Kind: "prog", Seed: seed, I: i, Links: links[1:depth], Fail: failKind, Depth: len(expected),
+	pc = ProgCase{Kind: "prog", Seed: seed, I: i, Links: links[1:depth], Fail: failKind, Ctx: ctxNames[g.ctx], Depth: len(expected),
 		SrcLen: len(src), Expected: expected, MaxLine: g.w.line, MaxCol: g.w.maxcol}
 	seen := map[string]bool{}
 	var lay []string
@@ -1105,8 +1320,7 @@ func runProg(seed uint64, i int, withLNT bool) ProgCase {
 	if len(src) < 3000 {
 		pc.Src = src
 	}
-	opts := &syntax.FileOptions{}
-	_, prog, err := starlark.SourceProgramOptions(opts, progFile, src, func(string) bool { return false })
+	_, prog, err := starlark.SourceProgramOptions(progOpts, progFile, src, predeclared().Has)
 	if err != nil {
 		pc.Problem = "does not compile: " + err.Error()
 		if len(src) < 20000 {
@@ -1376,12 +1590,188 @@ func runTrace(seed uint64, i int) TraceCase {
 	return tc
 }
 
+// ----------------------------------------------------------------- conc mode
+//
+// Several threads fail at the same time in the same frozen function of a
+// freshly loaded program (no position of it has been looked up yet); the
+// function has a big position table and the failing instruction is late in it.
+// Every thread's CallStack must carry the expected positions.
+
+type ConcCase struct {
+	Kind     string  `json:"kind"` // "conc"
+	Seed     uint64  `json:"seed"`
+	I        int     `json:"i"`
+	Funcs    int     `json:"funcs"`
+	Rows     int     `json:"rows"` // positioned instructions per function (approx.)
+	Threads  int     `json:"threads"`
+	Reloads  int     `json:"reloads"`
+	Lookups  int     `json:"lookups"` // failing calls observed
+	Wrong    int     `json:"wrong"`
+	Expected []Frame `json:"expected,omitempty"` // of the first wrong observation
+	Got      []Frame `json:"got,omitempty"`
+	Panic    string  `json:"panic,omitempty"`
+	Problem  string  `json:"problem,omitempty"`
+}
+
+// A hookCaller is a Go callable with a Position method (the public
+// callableWithPosition protocol): a built-in frame that reports a position.
+type hookCaller struct {
+	fn      starlark.Value
+}
+
+var hookFile = "hook.go"
+
+func (c *hookCaller) Name() string          { return "caller" }
+func (c *hookCaller) String() string        { return "caller" }
+func (c *hookCaller) Type() string          { return "caller" }
+func (c *hookCaller) Freeze()               {}
+func (c *hookCaller) Truth() starlark.Bool  { return true }
+func (c *hookCaller) Hash() (uint32, error) { return 0, fmt.Errorf("unhashable") }
+func (c *hookCaller) CallInternal(thread *starlark.Thread, args starlark.Tuple, kwargs []starlark.Tuple) (starlark.Value, error) {
+	return starlark.Call(thread, c.fn, args, nil)
+}
+func (c *hookCaller) Position() syntax.Position {
+	return syntax.MakePosition(&hookFile, 1, 1)
+}
+
+func runConc(seed uint64, i int, reloads, nthreads int) ConcCase {
+	const repeats = 300
+	r := hx.NewRand(seed*5000011 + uint64(i)*999983 + 3)
+	cc := ConcCase{Kind: "conc", Seed: seed, I: i, Threads: nthreads, Reloads: reloads}
+	nf := 2 + r.Intn(2)
+	lines := 4000 + r.Intn(4000)
+	per := 12 + r.Intn(12)
+	cc.Funcs, cc.Rows = nf, lines*per
+	w := newW()
+	type want struct{ outerL, outerC, l, c int32 }
+	wants := make([]want, nf)
+	filler := "        a = [" + strings.TrimSuffix(strings.Repeat("x, ", per), ", ") + "]\n"
+	for k := 0; k < nf; k++ {
+		// The compiler lays out the false successor of a branch first and the true
+		// successor last: the 'then' branch below is at the END of the code and of the
+		// position table, yet it is reached after a handful of instructions.
+		w.s(fmt.Sprintf("def big%d(x):\n    if x:\n        return (", k))
+		w.nl(r.Intn(3))
+		w.sp(r.Intn(200))
+		w.s("1 ")
+		wants[k].l, wants[k].c = w.mark()
+		w.s("// (x - x))\n    else:\n")
+		for q := 0; q < lines; q++ {
+			w.s(filler)
+		}
+		w.s(fmt.Sprintf("def outer%d(x):\n    return big%d", k, k))
+		w.sp(r.Intn(30))
+		wants[k].outerL, wants[k].outerC = w.mark()
+		w.s("(x)\n")
+	}
+	src := w.sb.String()
+	_, prog0, err := starlark.SourceProgramOptions(progOpts, progFile, src, predeclared().Has)
+	if err != nil {
+		cc.Problem = "does not compile: " + err.Error()
+		return cc
+	}
+	var buf bytes.Buffer
+	if err := prog0.Write(&buf); err != nil {
+		cc.Problem = err.Error()
+		return cc
+	}
+	data := buf.Bytes()
+	var mu sync.Mutex
+	for rl := 0; rl < reloads; rl++ {
+		// a fresh program: nothing decoded yet
+		prog, err := starlark.CompiledProgram(bytes.NewReader(data))
+		if err != nil {
+			cc.Problem = err.Error()
+			return cc
+		}
+		globals, err := prog.Init(&starlark.Thread{Name: "init"}, predeclared())
+		if err != nil {
+			cc.Problem = "init: " + err.Error()
+			return cc
+		}
+		for k := 0; k < nf; k++ {
+			var fn starlark.Value = globals[fmt.Sprintf("outer%d", k)]
+			exp := []Frame{{Name: fmt.Sprintf("outer%d", k), Line: wants[k].outerL, Col: wants[k].outerC},
+				{Name: fmt.Sprintf("big%d", k), Line: wants[k].l, Col: wants[k].c}}
+			if (rl+k)%2 == 0 {
+				// through a Go callable whose Position method lines the threads up
+				fn = &hookCaller{fn: globals[fmt.Sprintf("big%d", k)]}
+				exp = []Frame{{Name: "caller", File: hookFile, Line: 1, Col: 1}, exp[1]}
+			}
+			start := make(chan struct{})
+			var ready, done sync.WaitGroup
+			for t := 0; t < nthreads; t++ {
+				ready.Add(1)
+				done.Add(1)
+				go func(t int) {
+					defer done.Done()
+					defer func() {
+						if e := recover(); e != nil {
+							mu.Lock()
+							cc.Panic = fmt.Sprint(e)
+							mu.Unlock()
+						}
+					}()
+					thread := &starlark.Thread{Name: fmt.Sprint("t", t)}
+					ready.Done()
+					<-start
+					// Thread 0 performs the first lookup.  A thread that arrives while the
+					// table is still being allocated waits for the decoding to finish; one
+					// that arrives later looks up while it is being decoded.  The length of
+					// the two phases varies widely, so the threads start 15, 30, 60, ... us apart.
+					if t > 0 {
+						for t0 := time.Now(); time.Since(t0) < time.Duration(15<<uint(t-1))*time.Microsecond; {
+						}
+					}
+					// fail again and again for about as long as the first lookup of the
+					// function's positions takes (allocation + decoding of the table), so
+					// that some thread's lookup falls into every phase of it
+					for rep := 0; rep < repeats; rep++ {
+						_, err := starlark.Call(thread, fn, starlark.Tuple{starlark.MakeInt(1)}, nil)
+						var got []Frame
+						if ee, ok := err.(*starlark.EvalError); ok {
+							for _, cf := range ee.CallStack {
+								got = append(got, frameOf(cf))
+							}
+						}
+						same := len(got) == len(exp)
+						for q := 0; same && q < len(exp); q++ {
+							same = got[q] == exp[q]
+						}
+						if !same || rep == repeats-1 {
+							mu.Lock()
+							cc.Lookups += rep + 1
+							if !same {
+								cc.Wrong++
+								if cc.Got == nil {
+									cc.Expected, cc.Got = exp, got
+									if cc.Got == nil {
+										cc.Got = []Frame{}
+									}
+								}
+							}
+							mu.Unlock()
+							break
+						}
+					}
+				}(t)
+			}
+			ready.Wait()
+			close(start)
+			done.Wait()
+		}
+	}
+	return cc
+}
+
 func main() {
 	mode := flag.String("mode", "codec", "codec | prog | one")
 	seed := flag.Uint64("seed", 1, "")
 	n := flag.Int("n", 100, "number of cases")
 	idx := flag.Int("i", 0, "case index (mode one)")
 	lnt := flag.Int("lnt", 0, "prog mode: dump the position tables of the first K programs")
+	reloads := flag.Int("reloads", 6, "conc mode: fresh copies of each program")
+	nthreads := flag.Int("threads", 8, "conc mode: goroutines failing at the same time")
 	maxtab := flag.Int("maxtab", 200000, "codec mode: omit the data of cases whose table is longer")
 	flag.Parse()
 	defer hx.Flush()
@@ -1402,6 +1792,11 @@ func main() {
 	case "prog":
 		for i := 0; i < *n; i++ {
 			hx.Emit(runProg(*seed, i, i < *lnt))
+		}
+	case "conc":
+		for i := 0; i < *n; i++ {
+			hx.Emit(runConc(*seed, i, *reloads, *nthreads))
+			hx.Flush()
 		}
 	case "trace":
 		for i := 0; i < *n; i++ {
